@@ -195,6 +195,37 @@ STRFN = {"strchr": 0, "strrchr": 0, "strncmp": None, "strcmp": None, "strtoul": 
          "hwloc_strncasecmp": None, "strncasecmp": None, "atoi": 0, "sscanf": 0, "hwloc_type_sscanf": 0, "hwloc__type_match": 0}
 
 
+def _prev_match_by_eval(P, f, call, x, ch=None):
+    """second opinion by evaluation: on every path reaching `call`, x is the non-NULL result of the last strchr/strrchr search for a
+    non-NUL character (the same character `ch` when given) -- whatever the loop form:  for (x = strchr(s, c); x; x = strchr(x+1, c))"""
+    import peval
+    seen = []
+    def mark(env, rhs):
+        r = strip(rhs) if rhs is not None else None
+        if r is not None and r["k"] == "Call" and r.get("fn") in ("strchr", "strrchr") and len(args(r)) == 2 and cval(args(r)[1]):
+            env["#pm"] = cval(args(r)[1])
+        else:
+            env.pop("#pm", None)
+    def obs(n, env):
+        if n["k"] == "DeclStmt":
+            for v in n["c"]:
+                if v["n"] == x:
+                    mark(env, v["c"][0] if v.get("c") else None)
+            return
+        a = assigned(n)
+        if a and lv(a[0]) == x:
+            mark(env, a[2] if a[1] == "=" else None)
+            return
+        if n["id"] == call["id"]:
+            pm = env.get("#pm")
+            seen.append(env.get(x) == 1 and pm is not None and (ch is None or pm == ch))
+    try:
+        peval.PathEval(P, f, {}, is_effect=lambda *z: False, through_effects=True, observe=obs, split={x: (0, 1)}, track={x}, maxstates=50000).run()
+    except AnalysisBroken:
+        return False
+    return bool(seen) and all(seen)
+
+
 def nul_discipline(chk, P, unit, funcs, rule="R-NUL"):
     """scanners of NUL-terminated text: `p + k` (k >= 1) is handed to a string function only where p[0..k-1] are known to be
     non-NUL on every path: *p was tested, p is the non-NULL result of strchr for a non-NUL character, or a literal of
@@ -251,6 +282,8 @@ def nul_discipline(chk, P, unit, funcs, rule="R-NUL"):
             k += 1
             n += 1
             ok = ("NZ", x, frozenset()) in st
+            if not ok and off == 1:
+                ok = _prev_match_by_eval(P, f, c, x)
             if not ok and off >= 2:
                 ok = any(fct[0] == "F" and "cmp(" in fct[1] and x in fct[1] and int(re.findall(r", (\d+)\)$", fct[1])[0]) >= off for fct in st if re.findall(r", (\d+)\)$", fct[1]))
             chk.inst(rule, f, "%s(%s+%d)#%d" % (c["fn"], x, off, k), ok,
@@ -265,6 +298,8 @@ def nul_discipline(chk, P, unit, funcs, rule="R-NUL"):
                         acc = True      # loop-carried: x is the previous match (facts on x are killed when x is re-assigned)
                     if fct[0] in ("R", "T", "F") and re.match(r"(\*%s|%s\[0\]) (==|!=) (%d|'.')$" % (re.escape(x), re.escape(x), ch), fct[1]):
                         acc = True
+                if not acc:
+                    acc = _prev_match_by_eval(P, f, c, x, ch)
                 n += 1
                 chk.inst(rule, f, "%s(%s+1)#%d:skip" % (c["fn"], x, k), acc,
                          "%s(%s + 1, %s): an occurrence of the searched character at %s[0] is skipped unless %s is the previous match or %s[0] was compared with it on every path "
